@@ -39,6 +39,7 @@ def make(rnd, k, foreign=.5, share=.5):
     fsigs = [rnd.choice(sigs if rnd.random() < share else sigs[:1]) for _ in range(nf)]
     contracts = gen_contracts(rnd, fsigs, rnd.randint(2, 6))
     funs = []
+    shared_chains = {}
     pool = [c[0] for c in contracts]
     for i in range(nf):
         name = 'fgh'[i]
@@ -50,9 +51,15 @@ def make(rnd, k, foreign=.5, share=.5):
         tags = iter(range(10 * (i + 1), 10 * (i + 1) + 9))
         while j < len(mine):
             r = rnd.random()
-            if r < .3 and j + 1 < len(mine):
+            if shared_chains and i > 0 and r < .35:
+                # one deal.chain(...) object applied to several functions
+                key = rnd.choice(sorted(shared_chains))
+                build.append(['chain', shared_chains[key], key])
+            elif r < .3 and j + 1 < len(mine):
                 n = rnd.randint(2, min(3, len(mine) - j))
-                build.append(['chain', mine[j:j + n]]); j += n
+                key = f'k{len(shared_chains)}'
+                shared_chains[key] = mine[j:j + n]
+                build.append(['chain', mine[j:j + n], key]); j += n
             else:
                 build.append(['use', mine[j]]); j += 1
             if rnd.random() < foreign * .5:
